@@ -224,14 +224,21 @@ def check_C11(ctx):
             if L < 0: continue
             b = gen.render_items(r, gen.chain_book(r, L))
             f = {"food.yaml": b, "log.yaml": b"2021/01/01:\n  r0: 1\n"}
-            cases.append(dict(files=f, cmd="reg", f_depth=N, **NOCOLOR))
-            cases.append(dict(files=f, cmd="csv-db-resolved", e_depth=N, **NOCOLOR))
-            cases.append(dict(files=dict(f, **{"cfg.ini": {"cfg": {"depth": N}}}), cmd="totals", f_config="cfg.ini", **NOCOLOR))
-            cases.append(dict(files=f, cmd="bal", f_depth=N, single_element="salt", **NOCOLOR))
+            # every command that resolves the book x every source of the limit (rotated so that each pair occurs)
+            forms = [dict(cmd="reg"), dict(cmd="reg", old=True), dict(cmd="reg", single_element="salt"), dict(cmd="reg", single_element="salt", group_food=True), dict(cmd="reg", single_food="r"),
+                     dict(cmd="bal"), dict(cmd="bal", single_element="salt"), dict(cmd="totals"), dict(cmd="unresolved"), dict(cmd="element-total", arg=b"salt"),
+                     dict(cmd="csv-db-resolved"), dict(cmd="summary", arg=b"2021/01/01"), dict(cmd="quantity"), dict(cmd="csv-log"), dict(cmd="print")]
+            for j, form in enumerate(forms):
+                src = (j + N + L) % 3
+                c = dict(files=f, **form, **NOCOLOR)
+                if src == 0: c["f_depth"] = N
+                elif src == 1: c["e_depth"] = N
+                else: c["files"] = dict(f, **{"cfg.ini": {"cfg": {"depth": N}}}); c["f_config"] = "cfg.ini"
+                cases.append(c)
     ires = cli_diff(ctx, cases, project=ws_norm, tag="C11:")
     return dict(rule="chains of N-2..N+2 references for N in 1..12 (shuffled declaration order), cycles of length 1..4 reached at depth 0, 1, N-1, N, random DAGs with "
                 "and without cycles; both entry points, %d fresh maps each; the success/failure outcome (and the resolved book) compared with the extracted Coq model "
-                "under 3 visiting orders; --maxdepth / HR_MAXDEPTH / config MaxDepth on the real binary; distinct by (book bytes, N)" % ctx.scale(16, 64))
+                "under 3 visiting orders; --maxdepth / HR_MAXDEPTH / config MaxDepth on the real binary for every command that resolves the book (register forms, balance, summary, report totals / unresolved / element-total, csv database-resolved) and three that do not; distinct by (book bytes, N)" % ctx.scale(16, 64))
 
 # ---------------------------------------------------------------------------
 # C04 / C09 / C10 : parser
